@@ -19,7 +19,13 @@ U64.__mul = function(a, b) return mk64(val(a) * val(b)) end
 U64.__eq = function(a, b) return val(a) == val(b) end
 U64.__lt = function(a, b) return math.ult(val(a), val(b)) end
 U64.__le = function(a, b) return val(a) == val(b) or math.ult(val(a), val(b)) end
-function U64:tonumber() return self.v end
+-- Wireshark's UInt64:tonumber() returns a lua_Number (double). For values that fit a non-negative Lua integer the integer compares the same way;
+-- the upper half of the unsigned range (stored here as a negative Lua integer) is converted the way (lua_Number)(guint64) is, so that a
+-- key like 9223372036854775808 compares equal to the literal the emitter writes (which Lua 5.3 reads as a float)
+function U64:tonumber()
+  if not self.signed and self.v < 0 then return (self.v + 0.0) + 18446744073709551616.0 end
+  return self.v
+end
 
 -- ---------------------------------------------------------------- Tvb / TvbRange
 local Range = {}
